@@ -16,10 +16,22 @@
     `WallYear0to9999 w`  the wall clock `w` lies in the calendar years 0–9999;
     `wantedFrac sf n`    (number of fraction digits, value they must show) for precision `sf` and `n` ns;
     `keptNanos sf n`     the nanoseconds that survive that precision (truncation).
+    `validUtf8 s`        `s` is well-formed UTF-8, i.e. a Rust `&str` (model of `str::from_utf8`, Model/TzParse);
+    `isCharBoundary s k` `s.is_char_boundary(k)`; `BoundarySuffix s r`: `r` is `s` minus a well-formed prefix
+                         (Spec/Utf8Spec.lean, property C15's byte-level vocabulary);
+    `truncatedTo sf z`   the value `z` with its sub-second part truncated to `sf`, leap-second flag kept;
+    `parse_rfc3339T`     the strict scanner run in a writer monad that records every `&s[k..]` it evaluates
+                         (Model/Rfc3339Slices.lean).
   Code: `Rfc3339.parse_from_rfc3339` = `DateTime::parse_from_rfc3339`, `Rfc3339.to_rfc3339_opts` =
   `DateTime::to_rfc3339_opts`, `Rfc3339.to_rfc3339` = `DateTime::to_rfc3339` (Model/Rfc3339.lean).
 -/
 import Chrono.Proofs.Rfc3339WriteL
+import Chrono.Proofs.Rfc3339SignL
+import Chrono.Proofs.Rfc3339UniqueL
+import Chrono.Proofs.Rfc3339SlicesL
+import Chrono.Proofs.Rfc3339DataL
+import Chrono.Proofs.Rfc3339ExtraL
+import Chrono.Proofs.Rfc3339RelaxedL
 import Chrono.Extracted.Rfc3339
 
 namespace Chrono.Props.C10
@@ -43,6 +55,34 @@ theorem source_data_ok :
     Extracted.RFC3339_WRITE_LITS =
       [9999, 100, 100, 1000000000, 1, 1000000000, 1000000, 1000, 0, 1000000, 0, 1000000, 1000, 0, 1000] := by
   decide
+
+/-- **source_data_tied_to_model.**  The re-extracted data are the MODEL's own literals (not a second
+copy of them, as in `source_data_ok`): the body of the reader model with the `(min, max)` of its six
+`scan::number` calls, its three separator bytes, the bytes of its five `scan::char` calls and the flags
+of its `timezone_offset` call replaced by the cells of the extracted lists IS `Parse.parse_rfc3339`, and
+the body of the writer model with its fifteen integer literals replaced by the cells of the extracted
+list IS `Format.write_rfc3339`; the lists have exactly that many cells.  (`Scan.SCALE` and
+`MAX_RFC3339_OFFSET` are tied in `source_data_ok` / by the model using the extracted constant.) -/
+theorem source_data_tied_to_model :
+    (Extracted.RFC3339_WIDTHS.length = 12 ∧ Extracted.RFC3339_SEPARATORS.length = 3 ∧
+     Extracted.RFC3339_CHARS.length = 5 ∧ Extracted.RFC3339_TZ_FLAGS.length = 3 ∧
+     Proofs.Rfc3339Data.parse_rfc3339_with Extracted.RFC3339_WIDTHS Extracted.RFC3339_SEPARATORS
+       Extracted.RFC3339_CHARS Extracted.RFC3339_TZ_FLAGS = Parse.parse_rfc3339) ∧
+    (Extracted.RFC3339_WRITE_LITS.length = 15 ∧
+     Proofs.Rfc3339Data.write_rfc3339_with Extracted.RFC3339_WRITE_LITS = Format.write_rfc3339) ∧
+    Parse.MAX_RFC3339_OFFSET = Extracted.MAX_RFC3339_OFFSET :=
+  ⟨Proofs.Rfc3339Data.parse_rfc3339_uses_extracted, Proofs.Rfc3339Data.write_rfc3339_uses_extracted, rfl⟩
+
+/-- non-vacuity of `source_data_tied_to_model`: the parametrised bodies do depend on the data — with
+the `AutoSi` millisecond test reading `% 100` instead of `% 1000000` the writer body prints other digits
+for 17:35:20.120001 (the reader body's dependence on each cell was checked the same way outside the
+kernel: `rfl` no longer proves the equality when a width, a separator, a byte or a flag is changed) -/
+example :
+    Proofs.Rfc3339Data.write_rfc3339_with
+        [9999, 100, 100, 1000000000, 1, 1000000000, 1000000, 1000, 0, 100, 0, 1000000, 1000, 0, 1000]
+        ⟨dateOfYo 2015 20, ⟨63320, 120001000⟩⟩ 0 .autoSi true ≠
+      Format.write_rfc3339 ⟨dateOfYo 2015 20, ⟨63320, 120001000⟩⟩ 0 .autoSi true := by
+  decide +kernel
 
 /-! ### The strict reader accepts exactly the grammar with valid fields -/
 
@@ -78,6 +118,99 @@ theorem denotes_unique (f : Fields) (a b : Zoned) (ha : Denotes f a) (hb : Denot
   cases a; cases b
   simp only [Zoned.mk.injEq]
   exact ⟨hu, ho⟩
+
+/-- **matches_unique.**  The grammar is unambiguous: a text has at most one reading, so "the fields
+shown" in `reader_sound`, `reader_complete` and the writer theorems are THE fields of the text. -/
+theorem matches_unique (s : List Nat) (f g : Fields) (hf : Matches s f) (hg : Matches s g) : f = g :=
+  Proofs.Rfc3339U.matches_unique s f g hf hg
+
+/-- `reader_sound` with the uniqueness made explicit: the accepted text has exactly one reading, it is
+valid, and the value returned is the only value it denotes -/
+theorem reader_sound_unique (s : List Nat) (v : Zoned) (h : parse_from_rfc3339 s = .ok (.ok v)) :
+    ∃ f, Matches s f ∧ Valid f ∧ Denotes f v ∧ (∀ g, Matches s g → g = f) ∧ (∀ w, Denotes f w → w = v) := by
+  obtain ⟨f, h1, h2, h3⟩ := parse_sound s v h
+  exact ⟨f, h1, h2, h3, fun g hg => matches_unique s g f hg h1, fun w hw => denotes_unique f w v hw h3⟩
+
+/-! ### The strict reader on arbitrary Unicode: every `&str` slice is taken at a char boundary
+
+Rust's `&s[k..]` panics unless `k ≤ s.len()` and `s.is_char_boundary(k)`.  The byte-list models cannot
+panic that way, so `reader_total_rejects`' "never a panic" needs these theorems to cover that class.
+`parse_rfc3339T` (Model/Rfc3339Slices.lean) is `parse_rfc3339` run in a writer monad that records every
+slice expression of `parse_rfc3339` and of `scan::{number, char, nanosecond, timezone_offset}` as (string
+sliced, suffix obtained), also in runs that fail later. -/
+
+open Chrono.M.Tz Chrono.Spec.Utf8 Chrono.M.Rfc3339Slices in
+/-- **reader_consumes_whole_chars.**  For EVERY well-formed UTF-8 text (any Unicode content, accepted or
+rejected) and any `Parsed` state: the recording run returns exactly what `parse_rfc3339` returns; every
+slice `&src[k..]` it takes — `&s[1..]` after a matched `-`, `:`, `T`/`t`/space, `.`, `Z`/`z`; `number`'s
+`&s[i..]`; `&s[len_utf8..]` after `+`, `-` or U+2212 (three bytes); `&s[2..]` after two matched digits —
+is taken of a well-formed string at an index `k ≤ src.len()` with `src.is_char_boundary(k)`, yields the
+recorded suffix, and that suffix is again well-formed; and on success what was consumed is a whole
+number of characters and the remainder is a `&str`.  Hence no slice of the strict reader can panic. -/
+theorem reader_consumes_whole_chars (p : Parsed) (s : List Nat) (hu : validUtf8 s = true) :
+    (parse_rfc3339T p s).1 = Parse.parse_rfc3339 p s ∧
+    (∀ e ∈ (parse_rfc3339T p s).2,
+      validUtf8 e.src = true ∧ e.k ≤ e.src.length ∧ e.rest = e.src.drop e.k ∧
+      isCharBoundary e.src e.k = true ∧ validUtf8 e.rest = true) ∧
+    (∀ p' rest, Parse.parse_rfc3339 p s = .ok (p', rest) → BoundarySuffix s rest ∧ validUtf8 rest = true) := by
+  refine ⟨Proofs.Rfc3339Slices.parse_rfc3339T_fst p s, ?_, ?_⟩
+  · intro e he
+    obtain ⟨hv, hb⟩ := (Proofs.Rfc3339Slices.parse_rfc3339T_good p s hu).1 e he
+    obtain ⟨b1, b2, b3, b4⟩ := Proofs.Utf8.bs_boundary hv hb
+    exact ⟨hv, b1, b2, b3, b4⟩
+  · intro p' rest h
+    have hb := Proofs.ScanBoundary.parse_rfc3339_bs p s p' rest h
+    exact ⟨hb, Proofs.Utf8.bs_valid_rest hu hb⟩
+
+open Chrono.M.Tz Chrono.Spec.Utf8 Chrono.M.Rfc3339Slices Chrono.M.Scan in
+/-- **scanner_slices_whole_chars.**  The same for each scanning primitive the strict reader uses, on any
+well-formed text, for every `min ≤ max`, every ASCII `c1`, every colon mode and every combination of
+the three `timezone_offset` flags: same result as the model, and every slice recorded — in failing
+runs too — is at a char boundary of a well-formed string. -/
+theorem scanner_slices_whole_chars (s : List Nat) (hu : validUtf8 s = true) (k : Nat) (mx : Option Nat)
+    (hk : ∀ m, mx = some m → k ≤ m) (c : Nat) (hc : c < 128) (cm : ColonMode) (z mm ms : Bool) :
+    let good : Slice → Prop := fun e =>
+      validUtf8 e.src = true ∧ e.k ≤ e.src.length ∧ e.rest = e.src.drop e.k ∧
+      isCharBoundary e.src e.k = true ∧ validUtf8 e.rest = true
+    ((numberT s k mx).1 = number s k mx ∧ ∀ e ∈ (numberT s k mx).2, good e) ∧
+    ((charT s c).1 = Scan.char s c ∧ ∀ e ∈ (charT s c).2, good e) ∧
+    ((nanosecondT s).1 = nanosecond s ∧ ∀ e ∈ (nanosecondT s).2, good e) ∧
+    ((timezone_offsetT s cm z mm ms).1 = timezone_offset s cm z mm ms ∧
+      ∀ e ∈ (timezone_offsetT s cm z mm ms).2, good e) := by
+  intro good
+  have lift : ∀ e : Slice, Proofs.Rfc3339Slices.GoodSlice e → good e := by
+    intro e ⟨hv, hb⟩
+    obtain ⟨b1, b2, b3, b4⟩ := Proofs.Utf8.bs_boundary hv hb
+    exact ⟨hv, b1, b2, b3, b4⟩
+  exact ⟨⟨Proofs.Rfc3339Slices.numberT_fst s k mx,
+      fun e he => lift e ((Proofs.Rfc3339Slices.numberT_good s k mx hu hk).1 e he)⟩,
+    ⟨Proofs.Rfc3339Slices.charT_fst s c, fun e he => lift e ((Proofs.Rfc3339Slices.charT_good s c hc hu).1 e he)⟩,
+    ⟨Proofs.Rfc3339Slices.nanosecondT_fst s, fun e he => lift e ((Proofs.Rfc3339Slices.nanosecondT_good s hu).1 e he)⟩,
+    ⟨Proofs.Rfc3339Slices.timezone_offsetT_fst s cm z mm ms,
+      fun e he => lift e ((Proofs.Rfc3339Slices.timezone_offsetT_good s cm z mm ms hu).1 e he)⟩⟩
+
+open Chrono.M.Tz Chrono.Spec.Utf8 Chrono.M.Rfc3339Slices in
+/-- non-vacuity of `reader_consumes_whole_chars` / `scanner_slices_whole_chars`, multi-byte characters where
+it matters.  `"2015-01-20T10:00:00.5−0é:00"` is well-formed UTF-8 (the hypothesis), so all its slices are
+legal.  Its offset part `"−0é:00"`: the run of `timezone_offset` FAILS (`Invalid`: the "hour digits" are `0`
+and the first byte of `é`) after having taken exactly one slice, `&s[3..]` behind the three bytes of
+U+2212 — index 3 is a char boundary of that string, 1 and 2 are not — and the slice `&s[2..]` behind the
+hour digits, which would split `é` (index 5 is not a boundary), is never taken because the digit test comes
+first.  On `"−08:00é"` the run succeeds with slices at 3, 2, 1, 2 and leaves `é`. -/
+example :
+    validUtf8 [50, 48, 49, 53, 45, 48, 49, 45, 50, 48, 84, 49, 48, 58, 48, 48, 58, 48, 48, 46, 53, 226, 136, 146, 48, 195, 169, 58, 48, 48] = true ∧
+    (timezone_offsetT [226, 136, 146, 48, 195, 169, 58, 48, 48] .charColon true false true).1.toOption = none ∧
+    (timezone_offsetT [226, 136, 146, 48, 195, 169, 58, 48, 48] .charColon true false true).2.map
+      (fun e => (e.src.length, e.k)) = [(9, 3)] ∧
+    isCharBoundary [226, 136, 146, 48, 195, 169, 58, 48, 48] 3 = true ∧
+    isCharBoundary [226, 136, 146, 48, 195, 169, 58, 48, 48] 1 = false ∧
+    isCharBoundary [226, 136, 146, 48, 195, 169, 58, 48, 48] 2 = false ∧
+    isCharBoundary [226, 136, 146, 48, 195, 169, 58, 48, 48] 5 = false ∧
+    (timezone_offsetT [226, 136, 146, 48, 56, 58, 48, 48, 195, 169] .charColon true false true).1.toOption =
+      some ([195, 169], -28800) ∧
+    (timezone_offsetT [226, 136, 146, 48, 56, 58, 48, 48, 195, 169] .charColon true false true).2.map
+      (fun e => (e.src.length, e.k)) = [(10, 3), (7, 2), (5, 1), (4, 2)] := by
+  decide +kernel
 
 /-- non-vacuity of `reader_complete` (hence of `reader_sound`, whose hypothesis is its conclusion): a
 string using every latitude at once — lower-case `t`, twelve fraction digits, U+2212, second 60 —
@@ -120,7 +253,9 @@ example :
 
 /-! ### The writer -/
 
-/-- `to_rfc3339()` is `to_rfc3339_opts(AutoSi, false)` -/
+/-- `to_rfc3339()` is `to_rfc3339_opts(AutoSi, false)`.  The two functions have separate bodies in
+src/datetime/mod.rs and separate bodies in Model/Rfc3339.lean (`to_rfc3339` binds `offset` and passes the
+literal `SecondsFormat::AutoSi, false`); this theorem says the bodies agree on every value. -/
 theorem to_rfc3339_is_opts (z : Zoned) : to_rfc3339 z = to_rfc3339_opts z .autoSi false := rfl
 
 /-- **writer_in_grammar.**  For every well-formed zone-aware value with a whole-minute offset whose wall
@@ -134,12 +269,16 @@ theorem writer_in_grammar (z : Zoned) (hz : ZInv z) (hoff : z.off % 60 = 0)
   exact ⟨t, f, h1, h2, h3, h4, h5⟩
 
 /-- **writer_fields_exact.**  The fields shown are the wall-clock fields: the date shown is the
-calendar date of the wall-clock day (`Valid` makes it an existing date, and one date per day number —
-C01 — makes it *the* date), hour/minute/second decompose the second of the day (a leap-second
+calendar date of the wall-clock day — `Valid` makes it an existing date, its day number is the wall-clock
+day, and (last-but-one conjunct, C01's one-date-per-day-number) ANY existing date with that day number is
+the (year, month, day) shown —, hour/minute/second decompose the second of the day (a leap-second
 representation shows the following second, i.e. `60` after second 59); the fraction has exactly the
 number of digits the precision asks for and shows the sub-second nanoseconds **truncated** to it
 (`wantedFrac`: `n / 10⁶`, `n / 10³`, `n`; `AutoSi` = the shortest of 0/3/6/9 digits that loses
-nothing); `Z` is used iff requested and the offset is zero; the offset shown is the value's offset. -/
+nothing, see `autoSi_shortest`); `Z` is used iff requested and the offset is zero; the offset shown is
+the value's offset, **with its sign**: `-` exactly for a negative offset (offset zero is `+00:00`, never
+RFC 3339's "unknown offset" `-00:00`), hour and minute fields those of `|off|`; and the text has no other
+reading (`matches_unique`). -/
 theorem writer_fields_exact (z : Zoned) (hz : ZInv z) (hoff : z.off % 60 = 0)
     (hy : WallYear0to9999 (wallSecs z)) (sf : Format.SecondsFormat) (use_z : Bool) :
     ∃ t f, to_rfc3339_opts z sf use_z = .ok t ∧ Matches t f ∧ Valid f ∧
@@ -147,9 +286,35 @@ theorem writer_fields_exact (z : Zoned) (hz : ZInv z) (hoff : z.off % 60 = 0)
       (f.hour : Int) = wallSecs z % 86400 / 3600 ∧ (f.minute : Int) = wallSecs z % 86400 / 60 % 60 ∧
       (f.second : Int) = wallSecs z % 86400 % 60 + (if z.utc.time.frac ≥ 1000000000 then 1 else 0) ∧
       (f.fracDigits.length, digitsVal f.fracDigits 0) = wantedFrac sf (z.utc.time.frac % 1000000000).toNat ∧
-      (f.zulu = true ↔ (use_z = true ∧ z.off = 0)) ∧ offsetOf f = z.off := by
-  obtain ⟨t, f, h1, h2, h3, h4, h5, h6, h7, h8, h9, h10, _, _⟩ := writer_main z hz hoff hy sf use_z
-  exact ⟨t, f, h1, h2, h3, h4, h5, h6, h7, h8, h9, h10⟩
+      (f.zulu = true ↔ (use_z = true ∧ z.off = 0)) ∧ offsetOf f = z.off ∧
+      (f.neg = true ↔ z.off < 0) ∧ f.offH = z.off.natAbs / 3600 ∧ f.offM = z.off.natAbs / 60 % 60 ∧
+      (∀ (y : Int) (m d : Nat), validYmd y m d = true → dayNum y m d = EPOCH_DAY + wallSecs z / 86400 →
+        (f.year : Int) = y ∧ f.month = m ∧ f.day = d) ∧
+      (∀ g, Matches t g → g = f) := by
+  obtain ⟨t, f, h1, h2, h3, h4, h5, h6, h7, h8, h9, h10, _, _, h11, h12, h13⟩ :=
+    writer_main_full z hz hoff hy sf use_z
+  refine ⟨t, f, h1, h2, h3, h4, h5, h6, h7, h8, h9, h10, h11, h12, h13, ?_, fun g hg => matches_unique t g f hg h2⟩
+  intro y m d hv hd
+  obtain ⟨e1, e2, e3⟩ := Proofs.Rfc3339U.ymd_of_dayNum_unique f.year y f.month f.day m d h3.1 hv (by rw [h4, hd])
+  exact ⟨e1, e2, e3⟩
+
+/-- non-vacuity of the sign clause: a UTC value without `use_z` renders `+00:00` (here
+`to_rfc3339()` of 2015-01-20T17:35:20Z = `"2015-01-20T17:35:20+00:00"`), while the reading with
+`neg = true` (the text `-00:00`) has the same `offsetOf` — the sign is not implied by `offsetOf f = z.off` -/
+example :
+    to_rfc3339 ⟨⟨dateOfYo 2015 20, ⟨63320, 0⟩⟩, 0⟩ = .ok [50, 48, 49, 53, 45, 48, 49, 45, 50, 48, 84, 49, 55, 58, 51, 53, 58, 50, 48, 43, 48, 48, 58, 48, 48] ∧
+    to_rfc3339_opts ⟨⟨dateOfYo 2015 20, ⟨63320, 0⟩⟩, -1800⟩ .secs true = .ok [50, 48, 49, 53, 45, 48, 49, 45, 50, 48, 84, 49, 55, 58, 48, 53, 58, 50, 48, 45, 48, 48, 58, 51, 48] ∧
+    offsetOf ⟨2015, 1, 20, 17, 35, 20, [], false, true, 0, 0⟩ = offsetOf ⟨2015, 1, 20, 17, 35, 20, [], false, false, 0, 0⟩ := by
+  decide +kernel
+
+/-- **autoSi_shortest.**  What `wantedFrac .autoSi` (a branch-for-branch copy of the code's cascade) means:
+the digit count `k` is one of 0, 3, 6, 9, the value shown is `n / 10^(9−k)` and nothing is lost
+(`10^(9−k)` divides `n`), and every smaller count of the four would lose something. -/
+theorem autoSi_shortest (n : Nat) (hn : n < 1000000000) :
+    (wantedFrac .autoSi n).1 ∈ [0, 3, 6, 9] ∧ n % 10 ^ (9 - (wantedFrac .autoSi n).1) = 0 ∧
+    (wantedFrac .autoSi n).2 = n / 10 ^ (9 - (wantedFrac .autoSi n).1) ∧
+    ∀ k' ∈ [0, 3, 6, 9], k' < (wantedFrac .autoSi n).1 → n % 10 ^ (9 - k') ≠ 0 :=
+  Proofs.Rfc3339U.autoSi_shortest n hn
 
 /-- truncation, never rounding: what the precision keeps is at most the sub-second value and misses
 less than one unit of the last digit shown -/
@@ -211,6 +376,104 @@ theorem roundtrip_exact (z : Zoned) (hz : ZInv z) (hoff : z.off % 60 = 0)
   obtain ⟨_, _, _, f1, f2⟩ := hz.1
   have hk := (kept_is_truncation sf (z.utc.time.frac % 1000000000).toNat (by omega)).2.2 hsf
   exact ⟨t, h1, by rw [← h6 hk hs]; exact h2⟩
+
+/-- **roundtrip_value.**  Every precision, leap seconds included, at the level of VALUES: for a value the
+public constructors can build (leap second only on second 59) the rendering at any of the five
+`SecondsFormat`s, with or without `Z`, parses back to exactly `truncatedTo sf z` — same date, same second,
+same offset, sub-second part truncated to the precision, and a leap-second representation stays a
+leap-second representation (`…:60`, `…:60.123`, … all read back as second 59 + 10⁹ ns + kept). -/
+theorem roundtrip_value (z : Zoned) (hz : ZInv z) (hoff : z.off % 60 = 0) (hy : WallYear0to9999 (wallSecs z))
+    (hs : TStrict z.utc.time) (sf : Format.SecondsFormat) (use_z : Bool) :
+    ∃ t, to_rfc3339_opts z sf use_z = .ok t ∧ parse_from_rfc3339 t = .ok (.ok (truncatedTo sf z)) :=
+  Proofs.Rfc3339X.roundtrip_value z hz hoff hy hs sf use_z
+
+/-- the five precisions on the leap second 2016-12-31T23:59:60.123456789Z seen at +05:30: what each keeps -/
+example :
+    let z : Zoned := ⟨⟨dateOfYo 2016 366, ⟨86399, 1123456789⟩⟩, 19800⟩
+    (ZInv z ∧ z.off % 60 = 0 ∧ WallYear0to9999 (wallSecs z) ∧ TStrict z.utc.time) ∧
+    (truncatedTo .secs z).utc.time = ⟨86399, 1000000000⟩ ∧ (truncatedTo .millis z).utc.time = ⟨86399, 1123000000⟩ ∧
+    (truncatedTo .micros z).utc.time = ⟨86399, 1123456000⟩ ∧ truncatedTo .nanos z = z ∧ truncatedTo .autoSi z = z := by
+  decide +kernel
+
+/-! ### The offset bound: ±23:59 -/
+
+/-- **offset_bound_exact.**  For a text of the grammar whose date and time of day are valid, acceptance
+by the strict reader is exactly: the minute field of the offset is a minute (`< 60`) and the offset, in
+seconds, lies within `±MAX_RFC3339_OFFSET` = ±(23·60+59)·60 — the `hh < 24` of `Valid` is the bound of the
+code.  So `+23:59`, `-23:59`, `−23:59` are the last offsets accepted; `+24:00`, `-24:00`, `+23:60` are not. -/
+theorem offset_bound_exact (s : List Nat) (f : Fields) (hm : Matches s f)
+    (hdt : validYmd f.year f.month f.day = true ∧ f.hour < 24 ∧ f.minute < 60 ∧ f.second ≤ 60) :
+    (∃ v, parse_from_rfc3339 s = .ok (.ok v)) ↔
+      (f.offM < 60 ∧ -Extracted.MAX_RFC3339_OFFSET ≤ offsetOf f ∧ offsetOf f ≤ Extracted.MAX_RFC3339_OFFSET) := by
+  rw [reader_accepts_iff]
+  constructor
+  · rintro ⟨g, hg, hv⟩
+    have e := matches_unique s g f hg hm
+    subst e
+    exact ⟨hv.2.2.2.2.2, (Proofs.Rfc3339X.offset_bound_iff g hv.2.2.2.2.2).mp hv.2.2.2.2.1⟩
+  · rintro ⟨h1, h2⟩
+    exact ⟨f, hm, hdt.1, hdt.2.1, hdt.2.2.1, hdt.2.2.2, (Proofs.Rfc3339X.offset_bound_iff f h1).mpr h2, h1⟩
+
+/-- every offset the writer is asked about (a `FixedOffset`, `|off| < 86400`, in whole minutes) is within the
+reader's bound, and the bound is attained: ±23:59 are whole-minute `FixedOffset`s -/
+theorem writer_offsets_within_reader_bound (off : Int) (h : OffValid off) (hm : off % 60 = 0) :
+    -Extracted.MAX_RFC3339_OFFSET ≤ off ∧ off ≤ Extracted.MAX_RFC3339_OFFSET := by
+  have hmax : Extracted.MAX_RFC3339_OFFSET = 86340 := by decide
+  unfold OffValid at h
+  rw [hmax]; omega
+
+/-- non-vacuity / the boundary itself: fields with offsets `+23:59`, `-23:59` are within the bound, `+24:00`,
+`-24:00` and (minute 60) `+23:60` are not; ±86340 s are whole-minute `FixedOffset`s, 86400 is not a `FixedOffset` -/
+example :
+    (let b (neg : Bool) (h m : Nat) : Bool :=
+      let f : Fields := ⟨2015, 1, 20, 17, 35, 20, [], false, neg, h, m⟩
+      decide (f.offM < 60 ∧ -Extracted.MAX_RFC3339_OFFSET ≤ offsetOf f ∧ offsetOf f ≤ Extracted.MAX_RFC3339_OFFSET)
+     b false 23 59 = true ∧ b true 23 59 = true ∧ b false 24 0 = false ∧ b true 24 0 = false ∧
+     b false 23 60 = false ∧ b false 0 0 = true ∧ b true 0 0 = true) ∧
+    (OffValid 86340 ∧ OffValid (-86340) ∧ (86340 : Int) % 60 = 0 ∧ ¬ OffValid 86400) := by
+  decide +kernel
+
+/-! ### Strict vs relaxed reader: the offset part
+
+`FromStr for DateTime<FixedOffset>` and the `%+` *parsing* item use `parse_rfc3339_relaxed`, which scans the
+offset with `timezone_offset(s.trim_start(), colon_or_space, true, false, true)`; the strict reader of this
+property uses `timezone_offset(s, |s| char(s, b':'), true, false, true)`. -/
+
+/-- **relaxed_offset_accepts_strict_partial.**  On the offset part the relaxed scanner accepts everything
+the strict one accepts, with the same offset and the same remainder.  (`_partial`: only the offset part.
+That the whole relaxed reader accepts every string the strict reader accepts, and a characterisation of
+what it accepts beyond — white space between items, one-digit fields, signed and longer years, no colon
+or several colons/spaces in the offset, `UTC` — is not proved; see audit/C10.md.) -/
+theorem relaxed_offset_accepts_strict_partial (s r : List Nat) (v : Int)
+    (h : Scan.timezone_offset s .charColon true false true = .ok (r, v)) :
+    Scan.timezone_offset s .colonOrSpace true false true = .ok (r, v) :=
+  Proofs.Rfc3339Relaxed.relaxed_offset_accepts_strict s r v h
+
+/-- the inclusion is strict, and the hypothesis is satisfiable: `+08:00` is read by both scanners as 28800;
+`+0800`, `+08 00`, `+08::00`, `+08: :00` are read as 28800 by the relaxed scanner and rejected by the strict
+one; `+08` (no minutes) and `+08:60` are rejected by both -/
+example :
+    (Scan.timezone_offset [43, 48, 56, 58, 48, 48] .charColon true false true).toOption = some ([], 28800) ∧
+    (Scan.timezone_offset [43, 48, 56, 58, 48, 48] .colonOrSpace true false true).toOption = some ([], 28800) ∧
+    (∀ s ∈ [[43, 48, 56, 48, 48], [43, 48, 56, 32, 48, 48], [43, 48, 56, 58, 58, 48, 48], [43, 48, 56, 58, 32, 58, 48, 48]],
+      (Scan.timezone_offset s .charColon true false true).toOption = none ∧
+      (Scan.timezone_offset s .colonOrSpace true false true).toOption = some ([], 28800)) ∧
+    (∀ s ∈ [[43, 48, 56], [43, 48, 56, 58, 54, 48]],
+      (Scan.timezone_offset s .charColon true false true).toOption = none ∧
+      (Scan.timezone_offset s .colonOrSpace true false true).toOption = none) := by
+  decide
+
+/-! ### The `%+` formatting item -/
+
+/-- **plus_item_is_to_rfc3339.**  `dt.format("%+")` of a `DateTime<FixedOffset>` (written into a `String` and
+unwrapped, as `to_string()` does) is `dt.to_rfc3339()` for EVERY value — so all writer theorems above hold
+for the `%+` item; and `%+` applied to a value without an offset (`NaiveDateTime`, `NaiveDate`, `NaiveTime`)
+is a formatting error (`Err(fmt::Error)`), never a text. -/
+theorem plus_item_is_to_rfc3339 (z : Zoned) (dt : NaiveDT) (d : Date) (t : Time) :
+    expectText (ParseFrom.format (.zoned z) [37, 43]) = to_rfc3339 z ∧
+    ParseFrom.format (.naive dt) [37, 43] = Format.werr ∧ ParseFrom.format (.date d) [37, 43] = Format.werr ∧
+    ParseFrom.format (.time t) [37, 43] = Format.werr :=
+  ⟨Proofs.Rfc3339X.plus_format_zoned z, Proofs.Rfc3339X.plus_format_naive dt d t⟩
 
 /-- non-vacuity of the writer and round-trip theorems: the leap second 2016-12-31T23:59:60.5Z seen at
 +05:30 (wall clock 2017-01-01T05:29:60.5), the first and the last second of the years 0–9999 seen
